@@ -550,8 +550,11 @@ def rule_kwforward(ctx):
             if c.via_filter:
                 good = passes_kwargs or not optional
                 yield ob("C03.KWFORWARD", em.func, "%s:call:%s@%d" % (em.qual, callee, _ordinal(em.summ, c)), good, "filter_kwargs(%s, ...) %s **%s" % (callee, "forwards" if passes_kwargs else "does not forward", em.kwname), node=c.node)
-                bad_kinds = g.kwonly or g.posonly
-                yield ob("C03.KWFORWARD", g, "%s:signature" % callee, not bad_kinds, "callee reached through filter_kwargs has keyword-only/positional-only parameters %s (co_varnames[:co_argcount] would drop or mis-handle them)" % (g.kwonly + g.posonly))
+                if "filter_name_source" not in ctx.cache:
+                    list(rule_filterimpl(ctx))
+                by_sig = ctx.cache.get("filter_name_source") == "signature"
+                bad_kinds = g.posonly if by_sig else (g.kwonly or g.posonly)
+                yield ob("C03.KWFORWARD", g, "%s:signature" % callee, not bad_kinds, "callee reached through filter_kwargs has parameters %s that the keyword filter (%s) would drop or mis-handle" % (bad_kinds, "signature kinds POSITIONAL_OR_KEYWORD/KEYWORD_ONLY" if by_sig else "co_varnames[:co_argcount]") if bad_kinds else "every parameter of the callee can be reached by keyword through the filter")
             else:
                 # direct call: allowed only for callees without optional parameters (nothing a user keyword could reach)
                 is_helper = not _is_metric_like(g)
@@ -564,6 +567,61 @@ PREPROC_HELPERS = {"util.adjust_intervals", "util.merge_labeled_intervals", "uti
 
 def _is_metric_like(g):
     return g.qual not in PREPROC_HELPERS
+
+
+def _signature_names(names, fn_t):
+    """True/False when ``names`` is [n for n, p in inspect.signature(fn).parameters.items() if p.kind in (...)]
+    (True iff the kinds kept are exactly the keyword-passable ones); None when it is another shape."""
+    if not (names.op == "comp" and names.a[0] in ("list", "set", "tuple") and len(names.a[2]) == 1):
+        return None
+    it = names.a[2][0]
+    if not (it.op == "call" and call_name(it) == ".items" and it.a[1] and it.a[1][0].op == "attr" and it.a[1][0].a[1] == "parameters"):
+        return None
+    sigc = it.a[1][0].a[0]
+    if not (sigc.op == "call" and call_name(sigc) == "inspect.signature" and len(sigc.a[1]) == 1 and sigc.a[1][0] is fn_t):
+        return None
+    elt = names.a[1]
+    if not (elt.op == "sub" and tm.is_const(elt.a[1], 0)):
+        return False
+    kinds = set()
+    for c in names.a[3]:
+        if c.op == "cmp" and c.a[0] == "in" and c.a[1].op == "attr" and c.a[1].a[1] == "kind" and c.a[2].op in ("tuple", "list", "set"):
+            for k in c.a[2].a:
+                if k.op == "attr":
+                    kinds.add(k.a[1])
+        elif c.op == "cmp" and c.a[0] == "==" and any(z.op == "attr" and z.a[1] == "kind" for z in c.a[1:]):
+            for z in c.a[1:]:
+                if z.op == "attr" and z.a[1] != "kind":
+                    kinds.add(z.a[1])
+        else:
+            return False
+    return kinds == {"POSITIONAL_OR_KEYWORD", "KEYWORD_ONLY"}
+
+
+def rule_decorated(ctx):
+    """A callee reached through filter_kwargs whose definition carries a wrapping decorator (util.deprecated, built on
+    the `decorator` package >= 5: the wrapper is `fun(*args, **kw)` with __signature__/__wrapped__ set) exposes its
+    parameters only through inspect.signature; if filter_kwargs reads names from `__code__`, every keyword is dropped."""
+    R = "C03.DECORATED"
+    list(rule_filterimpl(ctx))
+    src = ctx.cache.get("filter_name_source")
+    need(src in ("signature", "code"), R, "filter_kwargs: name source not recognised")
+    seen = set()
+    n = 0
+    for f in ctx.program.all_funcs():
+        for c in ctx.S.get(f.qual).calls():
+            if not c.d.get("via_filter"):
+                continue
+            callee = tm.callee_name(c.fn) if c.fn is not None else None
+            if callee is None or callee in seen or not ctx.program.has_func(callee):
+                continue
+            seen.add(callee)
+            g = ctx.program.func(callee)
+            decos = [ast.unparse(d) for d in getattr(g.node, "decorator_list", [])]
+            n += 1
+            good = not decos or src == "signature"
+            yield ob(R, g, "%s:reachable-by-keyword" % callee, good, ("undecorated" if not decos else "decorated by %s; filter_kwargs reads the names from inspect.signature, which follows the wrapper" % ", ".join(decos)) if good else "decorated by %s but filter_kwargs reads co_varnames of `__code__`, which is the decorator's (*args, **kw) wrapper: every keyword sent to %s through evaluate() is dropped" % (", ".join(decos), callee))
+    need(n >= 40, R, "callees reached through filter_kwargs not enumerated")
 
 
 def rule_filterimpl(ctx):
@@ -603,16 +661,24 @@ def rule_filterimpl(ctx):
                 from_items = key.op == "sub" and val.op == "sub" and key.a[0] is val.a[0] and tm.is_const(key.a[1], 0) and tm.is_const(val.a[1], 1) and f.kwarg in tm.params_of(key)
                 member = [c2 for c2 in conds if c2.op == "cmp" and c2.a[0] == "in" and c2.a[1] is key]
                 good_names = False
+                name_src = None
                 for c2 in member:
                     names = c2.a[2]
+                    sg = _signature_names(names, fn_t)
+                    if sg is not None:
+                        good_names = sg
+                        name_src = "signature"
+                        continue
                     # co_varnames[:co_argcount] of the callee's code object
                     if names.op == "sub" and names.a[0].op == "attr" and names.a[0].a[1] == "co_varnames" and names.a[1].op == "slice":
                         lo, hi, st = names.a[1].a
                         if lo.op == "const" and lo.a[0] is None and st.op == "const" and st.a[0] is None and hi.op == "attr" and hi.a[1] == "co_argcount" and hi.a[0] is names.a[0].a[0]:
                             code = hi.a[0]
                             good_names = code.op == "attr" and code.a[1] == "__code__" and code.a[0] is fn_t
+                            name_src = "code"
                 extra_conds = [c2 for c2 in conds if c2 not in member]
-                what = "a keyword is kept iff its name is in co_varnames[:co_argcount] of the callee, with its own value"
+                what = "a keyword is kept iff its name is %s, with its own value" % ("a keyword-passable parameter of inspect.signature(callee)" if name_src == "signature" else "in co_varnames[:co_argcount] of the callee")
+                ctx.cache["filter_name_source"] = name_src
                 if extra_conds:
                     what += "; found the extra filter condition %s" % "; ".join(tm.show(x, 3) for x in extra_conds)
                 yield ob("C03.FILTERIMPL", f, "util.filter_kwargs:filter", from_items and good_names and not extra_conds and nloops == 1, what, node=node)
@@ -936,6 +1002,7 @@ RULES = [
     ("C03.DEFAULTSYNC", 55, rule_defaultsync),
     ("C03.KWFORWARD", 130, rule_kwforward),
     ("C03.FILTERIMPL", 4, rule_filterimpl),
+    ("C03.DECORATED", 40, rule_decorated),
     ("C03.ROLEARGS", 280, rule_roleargs),
     ("C03.UNPACKORDER", 180, rule_unpackorder),
     ("C03.PREPROC", 26, rule_preproc),
